@@ -34,6 +34,15 @@ Theorem c17_deleted_lines_retargeted_to_existing_lines : forall ds all deleted m
 Proof. exact ref_map_targets_exist. Qed.
 Print Assumptions c17_deleted_lines_retargeted_to_existing_lines.
 
+(* seen from the whole program: each deleted line is mapped to the FIRST line after it that is not deleted *)
+Theorem c17_replacement_is_first_kept_line : forall ds all deleted m pre cur,
+  all = pre ++ cur -> ascending ds ->
+  Forall (fun x => (forall d, In d ds -> x <= d) \/ memNl x deleted = true) pre ->
+  ref_map ds cur deleted = Some m ->
+  Forall (fun p => next_kept (fst p) all deleted = Some (snd p)) m.
+Proof. exact ref_map_is_next_kept. Qed.
+Print Assumptions c17_replacement_is_first_kept_line.
+
 (* non-vacuity: LO followed by GOTO is a hazard (LOG), LO followed by =5 is not and is read plainly *)
 Example c17_example :
   forms_hidden_token [76; 79] [71; 79; 84; 79; 49; 48] = true /\ forms_hidden_token [76; 79] [61; 53] = false
